@@ -251,10 +251,14 @@ class SSeq:
             raise ValueError('subsection not found')
         return r
 
-    def rfind(self, sub):
+    def rfind(self, sub, start=0, end=None):
         se = [sub] if isinstance(sub, (int, SInt)) else elems_of(sub)
         n = len(self.items)
-        for k in range(n - len(se), -1, -1):
+        if isinstance(start, SInt) or isinstance(end, SInt):
+            start, end, _ = _slice_bounds(slice(start, end), n)
+        else:
+            start, end, _ = slice(start, end).indices(n)
+        for k in range(end - len(se), start - 1, -1):
             if eq_elems(self.items[k:k + len(se)], se):
                 return k
         return -1
